@@ -401,3 +401,220 @@ Theorem split_join_roundtrip_printable items :
   split_by_commas (join_items items) = Ok items.
 Proof. intros Hn H. apply split_join_roundtrip; [exact Hn|]. revert H. apply Forall_impl.
   intros it [H1 H2]. apply printable_item_ok; assumption. Qed.
+
+(* ------------------------------------------------------------------ rejections *)
+(* the text before the offending field: well-formed fields, each followed by its comma *)
+Definition prefix_text (pre : list str) : str := flat_map (fun it => quote it ++ [44]) pre.
+Definition tail_fields (fs : list str) : str := flat_map (fun f => 44 :: f) fs.
+
+Lemma join_fields_cons f fs : join_fields (f :: fs) = f ++ tail_fields fs.
+Proof. unfold join_fields. revert f. induction fs as [|g fs IH]; intros f.
+  - cbn. rewrite app_nil_r. reflexivity.
+  - rewrite join_cons. cbn [tail_fields flat_map app]. f_equal. f_equal. apply IH. Qed.
+Lemma tail_fields_app a b : tail_fields (a ++ b) = tail_fields a ++ tail_fields b.
+Proof. apply flat_map_app. Qed.
+Lemma tail_fields_shift pre Z : tail_fields (map quote pre) ++ 44 :: Z = 44 :: prefix_text pre ++ Z.
+Proof. induction pre as [|p pre IH]; [reflexivity|]. cbn [map tail_fields flat_map prefix_text].
+  fold (tail_fields (map quote pre)). fold (prefix_text pre). cbn [app]. rewrite <- !app_assoc. rewrite IH.
+  cbn [app]. reflexivity. Qed.
+Lemma join_fields_prefix_more pre F post :
+  join_fields (map quote pre ++ F :: post) = prefix_text pre ++ F ++ tail_fields post.
+Proof.
+  destruct pre as [|p pre]; [apply join_fields_cons|].
+  cbn [map app]. rewrite join_fields_cons, tail_fields_app. cbn [tail_fields flat_map]. fold (tail_fields post).
+  cbn [app]. rewrite tail_fields_shift. cbn [prefix_text flat_map]. rewrite <- !app_assoc. reflexivity.
+Qed.
+Lemma join_fields_prefix pre F : join_fields (map quote pre ++ [F]) = prefix_text pre ++ F.
+Proof. rewrite join_fields_prefix_more. cbn [tail_fields flat_map]. rewrite app_nil_r. reflexivity. Qed.
+Lemma prefix_text_tail p0 ps F : prefix_text (p0 :: ps) ++ F = quote p0 ++ tail ps ++ 44 :: F.
+Proof. cbn [prefix_text flat_map]. rewrite <- !app_assoc. f_equal. cbn [app].
+  induction ps as [|p ps IH]; [reflexivity|]. cbn [flat_map tail app]. rewrite <- !app_assoc. cbn [app]. f_equal. f_equal. exact IH. Qed.
+
+Lemma notab_prefix pre : Forall (fun it => item_ok it = true) pre -> ~ In 9 (prefix_text pre).
+Proof. intros Hok Hin. unfold prefix_text in Hin. apply in_flat_map in Hin. destruct Hin as (it & Hi & Hin).
+  rewrite Forall_forall in Hok. apply in_app_or in Hin. destruct Hin as [Hin|[E|[]]]; [|discriminate].
+  exact (notab_quote _ (Hok _ Hi) Hin). Qed.
+
+Lemma expand_prefix pre F : Forall (fun it => item_ok it = true) pre ->
+  expandtabs (prefix_text pre ++ F) = prefix_text pre ++ expandtabs_from (col_after 0 (prefix_text pre)) F.
+Proof. intros Hok. unfold expandtabs. rewrite expandtabs_app, expandtabs_notab by (apply notab_prefix; exact Hok). reflexivity. Qed.
+
+(* after well-formed fields, the outcome is decided by what happens at the next field *)
+Lemma reject_core pre F : Forall (fun it => item_ok it = true) pre ->
+  (forall it r, parse_item F = Some (it, r) ->
+     forall fuel l r', parse_more fuel r = Some (l, r') -> skip_ws r' <> []) ->
+  parse_string (prefix_text pre ++ F) = Exn ValueError.
+Proof.
+  intros Hok Hbad. destruct pre as [|p0 ps].
+  - cbn [prefix_text flat_map app]. unfold parse_string.
+    destruct (parse_item F) as [[it r]|] eqn:Ei; [|reflexivity].
+    pose proof (parse_more_enough (S (length r)) r ltac:(lia)) as Hn.
+    destruct (parse_more (S (length r)) r) as [[l r']|] eqn:Em; [|congruence].
+    specialize (Hbad _ _ eq_refl _ _ _ Em). destruct (skip_ws r'); [congruence|reflexivity].
+  - inversion Hok as [|? ? H0 Hps]; subst. rewrite prefix_text_tail. unfold parse_string.
+    rewrite parse_item_quote by (try assumption; apply tail_stops; reflexivity).
+    set (Y := 44 :: F). set (fuel := S (length (tail ps ++ Y))).
+    rewrite parse_more_tail by (try assumption; try reflexivity; unfold fuel; lia).
+    assert (Hf : (length Y < fuel)%nat) by (unfold fuel; rewrite app_length; lia).
+    pose proof (parse_more_enough fuel Y Hf) as Hn.
+    destruct (parse_more fuel Y) as [[l r']|] eqn:Em; [|congruence].
+    destruct fuel as [|f]; [lia|]. unfold Y in Em. rewrite parse_more_comma in Em.
+    destruct (parse_item F) as [[it r]|] eqn:Ei.
+    + destruct (parse_more f r) as [[l2 r2]|] eqn:Em2; [|discriminate]. injection Em as <- <-.
+      specialize (Hbad _ _ eq_refl _ _ _ Em2). destruct (skip_ws r2); [congruence|reflexivity].
+    + injection Em as <- <-. rewrite skip_ws_nonwhite by exact white_comma. reflexivity.
+Qed.
+
+(* empty unquoted items: a field that is empty or blank, anywhere in the list *)
+Lemma parse_item_blank w rest : blank w = true -> (rest = [] \/ exists r, rest = 44 :: r) ->
+  parse_item (w ++ rest) = None.
+Proof. intros Hw Hr. unfold parse_item. rewrite skip_ws_blank by exact Hw.
+  destruct Hr as [->|[r ->]]; [reflexivity|]. rewrite skip_ws_nonwhite by exact white_comma. reflexivity. Qed.
+
+Lemma white_tab : is_white 9 = true. Proof. reflexivity. Qed.
+
+Theorem rejects_empty_item pre w post :
+  Forall (fun it => item_ok it = true) pre -> blank w = true ->
+  split_by_commas (join_fields (map quote pre ++ w :: post)) = Exn ValueError.
+Proof.
+  intros Hok Hw. rewrite join_fields_prefix_more. unfold split_by_commas. rewrite expand_prefix by exact Hok.
+  rewrite expandtabs_app. apply reject_core; [exact Hok|]. intros it r Hi. exfalso.
+  rewrite parse_item_blank in Hi; [discriminate|apply expandtabs_blank; exact Hw|].
+  destruct post as [|g post]; [left; reflexivity|right]. cbn [tail_fields flat_map app].
+  rewrite expandtabs_cons_notab by discriminate. eauto.
+Qed.
+
+(* text after a closing quote *)
+Lemma notab_quoted_field it : forallb (fun c => negb ((c =? 9) || (c =? 10) || (c =? 13))) it = true ->
+  ~ In 9 (quoted_field it).
+Proof.
+  intros Hc. unfold quoted_field. intros Hin. apply in_app_or in Hin. destruct Hin as [[Hin|[]]|Hin]; [discriminate|].
+  apply in_app_or in Hin. destruct Hin as [Hin|[Hin|[]]]; [|discriminate].
+  apply in_flat_map in Hin. destruct Hin as (c & Hc1 & Hc2). rewrite forallb_forall in Hc. specialize (Hc c Hc1).
+  unfold escape1 in Hc2. destruct ((c =? 34) || (c =? 92)).
+  - destruct Hc2 as [E|[E|[]]]; [discriminate|]. subst c. discriminate.
+  - destruct Hc2 as [E|[]]. subst c. discriminate.
+Qed.
+
+Theorem rejects_text_after_closing_quote pre it w x rest :
+  Forall (fun it => item_ok it = true) pre ->
+  forallb (fun c => negb ((c =? 9) || (c =? 10) || (c =? 13))) it = true ->
+  blank w = true -> is_white x = false -> x <> 44 ->
+  split_by_commas (join_fields (map quote pre ++ [quoted_field it ++ w ++ x :: rest])) = Exn ValueError.
+Proof.
+  intros Hok Hit Hw Hx Hc. rewrite join_fields_prefix. unfold split_by_commas. rewrite expand_prefix by exact Hok.
+  rewrite expandtabs_app, (expandtabs_notab (quoted_field it)) by (apply notab_quoted_field; exact Hit).
+  rewrite expandtabs_app.
+  assert (Hx9 : x <> 9) by (intros ->; rewrite white_tab in Hx; discriminate).
+  rewrite (expandtabs_cons_notab x) by exact Hx9.
+  match goal with |- context [expandtabs_from ?c w] => set (w' := expandtabs_from c w) end.
+  match goal with |- context [x :: expandtabs_from ?c rest] => set (rest' := expandtabs_from c rest) end.
+  assert (Hw' : blank w' = true) by (apply expandtabs_blank; exact Hw).
+  apply reject_core; [exact Hok|]. intros it' r Hi.
+  rewrite parse_item_quoted in Hi.
+  2:{ revert Hit. apply forallb_impl. intros c H. apply negb_true_iff in H. apply negb_true_iff.
+      destruct (c =? 9), (c =? 10), (c =? 13); cbn in *; congruence. }
+  injection Hi as <- <-. intros fuel l r' Hm. destruct fuel as [|f]; [discriminate|].
+  rewrite parse_more_stop in Hm by assumption. injection Hm as <- <-.
+  rewrite skip_ws_blank by exact Hw'. rewrite skip_ws_nonwhite by exact Hx. discriminate.
+Qed.
+
+(* a quote inside or at the end of an unquoted word *)
+Theorem rejects_quote_in_word pre wd rest :
+  Forall (fun it => item_ok it = true) pre -> wd <> [] -> forallb is_word wd = true ->
+  split_by_commas (join_fields (map quote pre ++ [wd ++ 34 :: rest])) = Exn ValueError.
+Proof.
+  intros Hok Hn Hwd. rewrite join_fields_prefix. unfold split_by_commas. rewrite expand_prefix by exact Hok.
+  assert (Hnt : ~ In 9 wd).
+  { intros Hin. rewrite forallb_forall in Hwd. specialize (Hwd 9 Hin). discriminate. }
+  rewrite expandtabs_app, (expandtabs_notab wd) by exact Hnt.
+  rewrite (expandtabs_cons_notab 34) by discriminate.
+  match goal with |- context [34 :: expandtabs_from ?c rest] => set (rest' := expandtabs_from c rest) end.
+  apply reject_core; [exact Hok|]. intros it' r Hi.
+  rewrite parse_item_unquoted in Hi by (try assumption; reflexivity).
+  injection Hi as <- <-. intros fuel l r' Hm. destruct fuel as [|f]; [discriminate|].
+  pose proof (parse_more_stop f [] 34 rest' eq_refl white_quote ltac:(discriminate)) as Hs.
+  cbn [app] in Hs. rewrite Hs in Hm.
+  injection Hm as <- <-. rewrite skip_ws_nonwhite by exact white_quote. discriminate.
+Qed.
+
+(* unbalanced quotes: exactly one double quote in the last field (so nothing can close it) *)
+Lemma parse_more_nq fuel : forall s l r', (nq s <= 1)%nat -> parse_more fuel s = Some (l, r') -> nq r' = nq s.
+Proof.
+  induction fuel as [|f IH]; intros s l r' Hq H; [discriminate|]. cbn [parse_more] in H.
+  pose proof (skip_ws_nq s) as Hs. destruct (skip_ws s) as [|c t]; [injection H as <- <-; reflexivity|].
+  rewrite delim_is in H. destruct (N.eqb_spec c 44) as [->|]; [|injection H as <- <-; reflexivity].
+  cbn [nq] in Hs. change (44 =? 34) with false in Hs. cbv iota in Hs.
+  destruct (parse_item t) as [[it r]|] eqn:Ei; [|injection H as <- <-; reflexivity].
+  destruct (parse_more f r) as [[l2 r2]|] eqn:Em; [|discriminate]. injection H as <- <-.
+  pose proof (parse_item_nq t it r ltac:(lia) Ei) as Hr.
+  rewrite (IH r l2 r2 ltac:(lia) Em). lia.
+Qed.
+
+Theorem rejects_unbalanced pre f :
+  Forall (fun it => item_ok it = true) pre -> nq f = 1%nat ->
+  split_by_commas (join_fields (map quote pre ++ [f])) = Exn ValueError.
+Proof.
+  intros Hok Hq. rewrite join_fields_prefix. unfold split_by_commas. rewrite expand_prefix by exact Hok.
+  match goal with |- context [expandtabs_from ?c f] => set (f' := expandtabs_from c f) end.
+  assert (Hq' : nq f' = 1%nat) by (unfold f'; rewrite nq_expandtabs; exact Hq).
+  apply reject_core; [exact Hok|]. intros it r Hi fuel l r' Hm.
+  pose proof (parse_item_nq f' it r ltac:(lia) Hi) as Hr.
+  pose proof (parse_more_nq fuel r l r' ltac:(lia) Hm) as Hr'.
+  apply nq_pos_nonnil. rewrite skip_ws_nq. lia.
+Qed.
+
+(* a single double quote anywhere in the whole text *)
+Corollary rejects_single_quote v : nq v = 1%nat -> split_by_commas v = Exn ValueError.
+Proof. intros H. apply (rejects_unbalanced [] v); [constructor|exact H]. Qed.
+
+(* ------------------------------------------------------------------ outside the domain, and examples *)
+From Coq Require Import String.
+(* the statement with the empty item allowed is false: an empty item is written as an
+   empty unquoted field, which split_by_commas rejects (the property's own last clause) *)
+Definition roundtrip_full_statement : Prop :=
+  forall items, items <> [] -> Forall (fun it => printable it = true) items ->
+  split_by_commas (join_items items) = Ok items.
+Lemma roundtrip_full_statement_refuted : ~ roundtrip_full_statement.
+Proof. intros H. specialize (H [[]] ltac:(discriminate) ltac:(repeat constructor)). vm_compute in H. discriminate. Qed.
+Lemma roundtrip_empty_item_rejected pre post : Forall (fun it => item_ok it = true) pre ->
+  split_by_commas (join_items (pre ++ [] :: post)) = Exn ValueError.
+Proof. intros H. unfold join_items. rewrite map_app. cbn [map]. change (quote []) with (@nil N).
+  apply (rejects_empty_item pre [] (map quote post) H eq_refl). Qed.
+
+(* each clause of item_ok is needed *)
+Example roundtrip_refuted_tab : split_by_commas (join_items [[97; 9; 32; 98]]) <> Ok [[97; 9; 32; 98]].
+Proof. vm_compute. discriminate. Qed.
+Example roundtrip_refuted_newline : split_by_commas (join_items [[97; 10; 32; 98]]) = Exn ValueError.
+Proof. vm_compute. reflexivity. Qed.
+Example roundtrip_refuted_cr : split_by_commas (join_items [[97; 13; 32; 98]]) = Exn ValueError.
+Proof. vm_compute. reflexivity. Qed.
+Example roundtrip_refuted_nonword : split_by_commas (join_items [[233]]) = Exn ValueError.
+Proof. vm_compute. reflexivity. Qed.
+(* ... and quoted items may hold non-ASCII text and control characters *)
+Example roundtrip_wide_item : item_ok [233; 32; 0; 128512; 11] = true /\
+  split_by_commas (join_items [[233; 32; 0; 128512; 11]]) = Ok [[233; 32; 0; 128512; 11]].
+Proof. vm_compute. split; reflexivity. Qed.
+
+(* non-vacuity *)
+Example roundtrip_example_run :
+  let items := [lit "a b"; lit "c,d"; [101; 34; 102]; [103; 92; 104]; lit "plain"; [92; 116]; [34]; [92]; [44]; [32]] in
+  forallb item_ok items = true /\ split_by_commas (join_items items) = Ok items.
+Proof. vm_compute. split; reflexivity. Qed.
+Example rejects_examples :
+  split_by_commas ([34] ++ lit "abc") = Exn ValueError /\                      (* dquote abc *)
+  split_by_commas ([34; 97; 34; 98]) = Exn ValueError /\                       (* dquote a dquote b *)
+  split_by_commas ([34; 97; 34; 32; 34; 98; 34]) = Exn ValueError /\           (* two quoted strings separated by a space *)
+  split_by_commas ([97; 34; 98; 34]) = Exn ValueError /\                       (* a then quoted b *)
+  split_by_commas (lit "a,,b") = Exn ValueError /\ split_by_commas (lit "a,") = Exn ValueError /\
+  split_by_commas (lit ",a") = Exn ValueError /\ split_by_commas [] = Exn ValueError /\
+  split_by_commas (lit " a , b ") = Ok [lit "a"; lit "b"] /\
+  split_by_commas ([34; 34]) = Ok [[]].                                          (* two double quotes: the empty item *)
+Proof. vm_compute. repeat split; reflexivity. Qed.
+(* pyparsing's own escapes in quoted strings (not used by the writer's convention) *)
+Example unescape_examples :
+  unescape (lit "\t") = [9] /\ unescape (lit "\n\f\r") = [10; 12; 13] /\ unescape (lit "\0") = [0] /\
+  unescape (lit "\03") = lit "03" /\ unescape (lit "\73") = lit "73" /\ unescape (lit "\x12") = [18] /\
+  unescape (lit "\xA2") = [162] /\ unescape (lit "\uB4") = [180] /\ unescape (lit "\x1") = lit "x1" /\
+  unescape (lit "\q") = lit "q" /\ unescape [92; 92; 116] = [92; 116].
+Proof. vm_compute. repeat split; reflexivity. Qed.
